@@ -53,6 +53,11 @@ def real_junit(rep, workdir):
         JunitBackend().save_report(path, rep)
     except TypeError:
         return {"err": "TypeError"}
+    return parse_junit(path)
+
+
+def parse_junit(path):
+    import xml.etree.ElementTree as ET
     root = ET.parse(path).getroot()
     suites = []
     for s in root.findall("testsuite"):
@@ -88,7 +93,11 @@ def real_summary(rep):
     buf = io.StringIO()
     with contextlib.redirect_stdout(buf):
         _print_summary(ReportStats.from_report(rep), rep.parallelized)
-    text = ANSI.sub("", buf.getvalue())
+    return parse_summary(buf.getvalue())
+
+
+def parse_summary(text):
+    text = ANSI.sub("", text)
     out = {"tests": None, "successes": None, "failures": None, "skipped": None, "disabled": None}
     for key, label in (("tests", "Tests"), ("successes", "Successes"), ("failures", "Failures"), ("skipped", "Skipped"),
                        ("disabled", "Disabled")):
@@ -315,6 +324,66 @@ class ViewsStream(C.Stream):
 LIVE_STRATEGIES = [None, "at_each_test", "at_each_failed_test", "at_each_failed_test", "at_each_suite", "at_each_log", "at_end_of_tests"]
 
 
+def _spec_suites(suites):
+    for s in suites:
+        yield s
+        yield from _spec_suites(s["subs"])
+
+
+def run_real_views(case, top):
+    """a REAL run with the console, JSON and JUnit backends created by `Session.create` in the given order and one saving
+    strategy: what the console printed at the end, what report-junit.xml holds, what `build_message` / `ReportStats` answer on
+    the live report — against the tests of the report LOADED from report.js"""
+    from props import c10 as X10
+    from lemoncheesecake import runner
+    from lemoncheesecake.events import AsyncEventManager
+    from lemoncheesecake.session import Session
+    from lemoncheesecake.fixture import FixtureRegistry
+    from lemoncheesecake.suite import resolve_tests_dependencies
+    from lemoncheesecake.reporting.savingstrategy import make_report_saving_strategy
+    from lemoncheesecake.reporting.backends.console import ConsoleBackend
+    from lemoncheesecake.reporting.backends.json_ import JsonBackend
+    from lemoncheesecake.reporting.backends.junit import JunitBackend
+    from lemoncheesecake.reporting import load_report
+    spec = case["spec"]
+    suites = X10._build_real_suites(spec)
+    resolve_tests_dependencies(suites, suites)
+    nb = spec["nb_threads"]
+    junit = JunitBackend()
+    saves = [0]
+    orig = junit.save_report
+
+    def counting(filename, rep):
+        saves[0] += 1
+        return orig(filename, rep)
+    junit.save_report = counting
+    bes = {"console": ConsoleBackend(), "json": JsonBackend(), "junit": junit}
+    old = Session._instance
+    buf = io.StringIO()
+    failure = None
+    try:
+        with contextlib.redirect_stdout(buf):
+            em = AsyncEventManager.load()
+            session = Session.create(em, [bes[n] for n in case["backends"]], top, make_report_saving_strategy(case["strategy"]), nb_threads=nb)
+            try:
+                runner.run_suites(suites, FixtureRegistry(), session, nb_threads=nb)
+            except Exception as e:      # classified
+                failure = type(e).__name__
+        report = session.report
+        out = {"failure": failure, "views": [], "junit_saves": saves[0]}
+        js = os.path.join(top, "report.js")
+        if failure is None and os.path.exists(js):
+            loaded = load_report(js)
+            ju = os.path.join(top, "report-junit.xml")
+            out["views"].append({"k": -1, "desc": R.canon_report(loaded),
+                                 "junit": parse_junit(ju) if os.path.exists(ju) else {"err": "missing"},
+                                 "stats": real_stats(report), "vars": real_vars(report), "summary": parse_summary(buf.getvalue()),
+                                 "writer_shaped": True})
+        return out
+    finally:
+        Session._instance = old
+
+
 class LiveStream(C.Stream):
     """What `lcc run --reporting console json junit` does: ONE `Report` object, mutated by the real `ReportWriter` event after
     event; the JUnit backend's file session (when attached) exports it each time the saving strategy fires, the views (ReportStats,
@@ -335,6 +404,18 @@ class LiveStream(C.Stream):
         shutil.rmtree(self.dir, ignore_errors=True)
 
     def gen(self, rng, i):
+        if i % 6 == 5:
+            # a REAL run (`runner.run_suites`, worker pool, AsyncEventManager) with the console, JSON and JUnit backends attached
+            # through `Session.create`, as `lcc run --reporting console json junit --save-report <strategy>` does
+            from props import c10 as X10
+            spec = X10.gen_real_spec(rng, "plain")
+            for st in _spec_suites(spec["suites"]):
+                for t in st["tests"]:
+                    t["acts"] = [a for a in t["acts"] if a[0] not in ("info", "threads")]
+            backends = ["console", "json", "junit"]
+            rng.shuffle(backends)
+            return {"kind": "real", "spec": spec, "backends": backends,
+                    "strategy": rng.choice(["at_each_failed_test", "at_each_failed_test", "at_each_test", "at_each_suite", "at_each_log", "every_0s"])}
         rep = R.strip_private(R.gen_report(rng, rng.choice(["safe", "plain"]), max_depth=rng.choice([2, 3]), unfinished=0.15))
         events = R.events_of_desc(rep, rng, tids=(1, 2))
         n = len(events)
@@ -354,6 +435,11 @@ class LiveStream(C.Stream):
         if not getattr(self, "dir", None):
             self.dir = tempfile.mkdtemp(prefix="lccverif-c20l-")
         top = tempfile.mkdtemp(prefix="run-", dir=self.dir)
+        if case.get("kind") == "real":
+            try:
+                return run_real_views(case, top)
+            finally:
+                shutil.rmtree(top, ignore_errors=True)
         try:
             report = Report()
             report.nb_threads = case["nb_threads"]
@@ -400,6 +486,14 @@ class LiveStream(C.Stream):
 
     def oracle(self, case, obs):
         fails = []
+        if case.get("kind") == "real":
+            if obs["failure"]:
+                return [C.Failure("C20/live/run-raised/" + obs["failure"], "the run raised")]
+            if obs["views"]:
+                fails += views_failures(obs["views"][0]["desc"], obs["views"][0],
+                                        "end of a real run with %s attached (%s): views of the live report vs the tests of the loaded report.js"
+                                        % ("+".join(case["backends"]), case["strategy"]))
+            return fails
         if obs["failure"]:
             f = obs["failure"]
             fails.append(C.Failure("C20/live/handler-raised/" + f["cls"], "event %d of a well-formed stream: %s" % (f["k"], f["msg"])))
@@ -417,11 +511,15 @@ class LiveStream(C.Stream):
         return fails
 
     def request(self, case, obs):
+        if case.get("kind") == "real":
+            return {"op": "views", "report": R.wire(obs["views"][0]["desc"])} if obs["views"] else None
         return {"op": "live", "events": R.wire(case["events"]), "nb_threads": case["nb_threads"], "cuts": [v["k"] for v in obs["views"]]}
 
     def compare(self, case, obs, ans):
         if "error" in ans:
             return "model error: " + str(ans["error"])
+        if case.get("kind") == "real":
+            return compare_views(obs["views"][0], ans)
         if len(ans["views"]) != len(obs["views"]):
             return "the model evaluates %d views, the implementation %d" % (len(ans["views"]), len(obs["views"]))
         for n, (v, m) in enumerate(zip(obs["views"], ans["views"]), 1):
@@ -431,10 +529,18 @@ class LiveStream(C.Stream):
         return None
 
     def nontrivial(self, case, obs):
+        if case.get("kind") == "real":
+            return bool(obs["views"]) and obs["views"][0]["stats"]["total"] >= 2 and obs.get("junit_saves", 0) >= 2
         tot = [v["stats"]["total"] for v in obs["views"]]
         return len(set(tot)) >= 2
 
     def features(self, case, obs):
+        if case.get("kind") == "real":
+            f = ["real-run", "real-run:strategy=" + case["strategy"], "real-run:backends=" + "+".join(case["backends"]),
+                 "real-run:threads=%d" % case["spec"]["nb_threads"]]
+            if obs.get("junit_saves", 0) >= 2:
+                f.append("real-run:junit-saved-before-the-end")
+            return f
         f = ["evaluations=%d" % min(len(obs["views"]), 6), "junit-session=" + str(case.get("junit_session"))]
         tot = [len(desc_tests(v["desc"])) for v in obs["views"]]
         if len(set(tot)) >= 2:
@@ -449,6 +555,21 @@ class LiveStream(C.Stream):
         return f
 
     def shrink(self, case):
+        if case.get("kind") == "real":
+            spec = case["spec"]
+            for i in range(len(spec["suites"])):
+                if len(spec["suites"]) > 1:
+                    yield dict(case, spec=dict(spec, suites=spec["suites"][:i] + spec["suites"][i + 1:]))
+            for i, su in enumerate(spec["suites"]):
+                if su["subs"]:
+                    yield dict(case, spec=dict(spec, suites=spec["suites"][:i] + [dict(su, subs=[])] + spec["suites"][i + 1:]))
+                for j in range(len(su["tests"])):
+                    if len(su["tests"]) > 1:
+                        s2 = dict(su, tests=su["tests"][:j] + su["tests"][j + 1:])
+                        yield dict(case, spec=dict(spec, suites=spec["suites"][:i] + [s2] + spec["suites"][i + 1:]))
+            if spec["nb_threads"] > 1:
+                yield dict(case, spec=dict(spec, nb_threads=1))
+            return
         ev = case["events"]
         for n in (len(ev) // 2, len(ev) * 3 // 4, len(ev) - 1):
             if 0 < n < len(ev):
